@@ -195,7 +195,7 @@ pub fn run(ctx: &mut Ctx) -> Result<(), Violation> {
             cases.push(Case::BoxSeed { seed: Hex(Fill::new(seed, &format!("C13:box:{len}:{fi}")).content(fi, len)) });
         }
     }
-    let n = ctx.tier.pick(5000usize, 100_000);
+    let n = ctx.tier.pick(5000usize, 400_000);
     for i in 0..n {
         let mut f = Fill::new(seed, &format!("C13:{i}"));
         let s = f.content(if i < 3 { i + 1 } else { 0 }, 32);
@@ -214,7 +214,7 @@ pub fn run(ctx: &mut Ctx) -> Result<(), Violation> {
             cases.push(Case::FromSecretKey { sk: Hex(sk.to_vec()) });
         }
     }
-    for i in 0..ctx.tier.pick(700usize, 5000) {
+    for i in 0..ctx.tier.pick(700usize, 40_000) {
         let mut f = Fill::new(seed, &format!("C13:derive:{i}"));
         let saltlen = if i % 3 == 0 { 16 } else { 8 + i % 25 };
         let pwl = f.below(64) as usize;
